@@ -26,11 +26,11 @@ def symbolic_for_list(I, node, env, it, spec, k, qn):
     i = fresh("i")
     n_t = it.length if not isinstance(it.length, int) else z3.IntVal(it.length)
     P.assume(z3.And(i >= 0, i <= n_t))
-    gh = {g: R._havoc_like(I, v, "g_" + g) for g, v in ghosts.items()}
+    gh = {g: (R._havoc_like(I, v, "g_" + g) if g in spec.ghost_step else v) for g, v in ghosts.items()}
     extra = dict(gh)
     extra[idx_name] = SInt(i)
     R._assume_inv(I, spec, env, extra, spec._havocked | set(gh))
-    if P.choose(2, "loop") == 0:
+    if P.choose(2, "loop%d" % k) == 0:
         P.assume(i < n_t)
         x = it.elem_factory(I, "m%d" % len(it.members))
         it.members.append(x)
